@@ -1,0 +1,22 @@
+//go:build verif
+
+package listener
+
+import "net"
+
+// VerifNewConn wraps a transport with the sniffing / write-queueing connection exactly as
+// Listener.serve does, at the given flush rate. Used by the runtime monitors under /verif.
+func VerifNewConn(c net.Conn, flushRate int) *Conn { return newConn(c, flushRate) }
+
+// VerifMatch runs the matchers against the connection with the same startSniffing /
+// doneSniffing sequence as Listener.serve and returns the index of the first that matched (-1 if
+// none did; the connection is then left as serve leaves it before closing).
+func (m *Conn) VerifMatch(matchers ...Matcher) int {
+	for i, processor := range matchers {
+		if processor(m.startSniffing()) {
+			m.doneSniffing()
+			return i
+		}
+	}
+	return -1
+}
